@@ -64,7 +64,7 @@ CHECKS = {
                 'Re(s*conj(s)); expectation prints Re(scalar) of g;P;g-adjoint with the adjoint taken before insertion; Pauli insertion table equals the reference '
                 '(Y = Z then X with phase 1/2) and preserves the type of the replaced boundary edge; all tasks go through decomp_graph whose branches differ only '
                 'in decompose_parallel vs decompose; task and driver dispatch tables.',
-        'note': TB + 'Not decided: the printed numbers (C05), independence of method as values, the distribution of samples.',
+        'note': TB + 'Not decided: what the decomposer returns for a real diagram (C05; in the evaluation it is a host that returns the scalar the plugged diagram denotes), independence of the decomposition method as values, the empirical distribution of samples.',
         'technique': 'backward data-flow slicing, validate-before-use dominance, dispatch tables, edge-replacement rule, sibling agreement',
     },
     'C07': {
@@ -153,7 +153,7 @@ CHECKS = {
                 'explicit clears for adjacent parents, or clear_ranks()), move_subtree by clear_ranks(); the surgery primitives are called only from the '
                 'three invalidating moves; every keyed access to the rank cache uses the canonical (min,max) key and the field is private; the annealer '
                 'replaces its best tree only under width < best_width and returns it; the two-distinct-indices idioms are proved by zone-domain abstract interpretation; the moves return early unless the tree is large enough (3 leaves / 6 nodes / a path of 4), replace_neighbor rewrites the first occurrence only, the annealer does not divide by an integer score that can be 0.',
-        'note': TB + 'Not decided: tree validity after surgery, equality of cached and recomputed widths as values, panic freedom of the surgery.',
+        'note': TB + 'Tree validity after surgery, equality of cached and recomputed widths and panic freedom are decided for the explored sizes only (graphs with up to 5, thorough 6, vertices; at most 2, thorough 3, moves between cache refills; annealer runs of up to 2 iterations); beyond them the structural rules are what is decided.',
         'technique': 'dominance/pairing rule for cache invalidation, who-may-call, canonical-key rule, zone-domain abstract interpretation',
     },
     'C09': {
@@ -205,14 +205,19 @@ THREE_VALUED = (' Verdict semantics: a VIOLATION is printed only for a definite 
 ROUND2 = {
     'C07': 'Round 2: Ord::cmp is evaluated on the 49-case abstraction by an interpreter that follows early returns, then/then_with and match; the Z[omega] product is evaluated on symbolic coefficients for all 256 patterns of vanishing coefficients (table and zero-skips by value, not by loop shape).',
     'C08': 'Round 2: scalar_eq is evaluated on 4764 pairs of small exact tensors against "equal up to a non-zero factor"; tensor arms are followed through free helper functions.',
-    'C10': 'Round 2: the Measure / MeasureReset arms are evaluated on a tracing host graph with and without a gate parity (given parity used, fresh variable otherwise, counter moved exactly once when fresh, parity attached to the X effect), private helpers followed.',
+    'C10': 'Round 2: params.rs is decided by exhaustive evaluation over the parity expressions on three variables; the Measure / MeasureReset arms are evaluated on a tracing host graph with and without a gate parity (given parity used, fresh variable otherwise, counter moved exactly once when fresh, parity attached to the X effect), private helpers followed.',
     'C11': 'Round 2: is_identity is evaluated on all 422 boundary configurations with at most 2 inputs, 2 outputs and one interior vertex (soundness of every "true", no panic); the guards of effect schemas are compared as boolean functions (enum variants, order trichotomy, options) rather than as text.',
     'C12': 'Round 2: equal_graph_with_options and equal_graph_tensor are evaluated over a symbolic host (diagrams as expressions adj(arg1) o arg2, 16 worlds of dims / identity / flag / scalar argument) against the soundness table of the statement; is_identity as in C11.',
     'C13': 'Round 2: reader/writer field provenance is compared through canonical, name-independent access paths (self.node_vertices[*].1.annotation.coord.0 ...); the marker condition is evaluated for every vertex type and both flag values; the neighbour-count validation is recognised as a length test or a two-element slice pattern.',
     'C14': 'Round 2: Gate::to_qasm is evaluated for every kind and both phase classes and Display for Circuit on a circuit whose gates leave the last qubits untouched (text compared with the reference form); the exact-multiple path and the register fallback are decided on access paths.',
     'C15': 'Round 2: decided by evaluation on small circuits — Gate::adjoint on every unitary kind (denotation negated), Circuit::adjoint / reverse / to_adjoint on circuits of 0..6 gates in every two-slice layout of the VecDeque, push_basic_gates / num_basic_gates / to_basic_gates for every kind and arity (CCZ / Toffoli multiplied out, parity-phase as an F2 phase polynomial for arities 0..8), CircuitStats::make on 168 one-gate circuits plus additivity, the five Add impls.',
     'C17': 'Round 2: the statement\'s own clauses are decided exhaustively for every F2 matrix with at most 3 rows and 3 columns (thorough tier: 3x4, the bound the statement names), every block size 1..cols and both reduction modes, against a brute-force model: rank, (reduced) echelon form, same row space through the reported row operations, two-sided inverse exactly when invertible, null space (annihilated, independent, cols - rank), transpose, stacking, all four Mul impls. Larger sizes remain covered structurally (block tiling up to 24 columns).',
-    'C18': 'Round 2: cache-key canonicality is read off dominating conditions (guards, early continues, negations), cache writes off value provenance.',
+    'C18': 'Round 2: DecompTree and RankwidthAnnealer::run are interpreted from their HIR on graphs with 2..5 vertices (thorough tier: up to 6, and every state reachable on the 4-vertex path) over every outcome of every random draw and every interleaving of moves and cache refills; an independent oracle decides at every reached state: cubic tree with exactly the vertices as leaves, no panic, rankwidth / score with the cache = the same on an empty cache = largest cut rank by brute force; the annealer returns a valid tree no wider than its initial one. The structural rules are the size-independent reading of the same code; cache-key canonicality is read off dominating conditions, cache writes off value provenance.',
+    'C02': 'Round 2: the output-slot bookkeeping of post-selection and measurement is evaluated on concrete qubit-to-slot maps.',
+    'C03': 'Round 2: the OptMethod dispatch is evaluated for every variant.',
+    'C06': 'Round 2: amplitude, expectation_value, sample and decomp_graph are evaluated end to end on a host circuit denoting a fixed state with exact amplitudes (1..3 qubits): the numbers returned equal |<b|psi>|^2, <psi|P|psi> and the conditional probabilities computed directly from the state, for every bit / Pauli string (broadcast and exact length, plain and Hadamard boundary edges, with and without --parallel) and every outcome of the draws; wrong lengths are rejected before the diagram is touched; both string parsers on every string of length <= 2.',
+    'C09': 'Round 2: both back ends are interpreted themselves and explored differentially against a model graph over operation sequences from three seed graphs (holes, names beyond the end): same observations through the name bijection, same failures.',
+    'C16': 'Round 2: phase.rs is evaluated on a host model of Rational64 (constructors normalise, every operator impl, predicates, conversions; limit_denominator against CPython\'s).',
     'C19': 'Round 2: every generator is explored over ALL outcomes of its random draws for small parameters (about 6000 outcomes per run): distinct in-range qubit arguments, only kinds with non-zero probability and all of them, depth, Pauli-gadget weights / phases (non-Clifford for even denominators >= 4) / basis-change layer undone by its adjoint, stabiliser-state structure with scalar sqrt2^(#H-edges - qubits), and the hidden-shift promise itself on 6 qubits (|0..0> -> |shift> with probability one, exact integer amplitudes).',
 }
 
